@@ -23,4 +23,39 @@ CHECKS = {
             "same reference matcher as C01; named loops (nested variable maps) are outside the model and covered by C03/C17 invariants only",
         ],
     },
+    "C03": {
+        "parts": [
+            {"test": "TestC03", "quick": 12000, "thorough": 200000, "shards": 16, "quick_shards": 2},
+        ],
+        "assumptions": ["one search command per program; column claim checked on ASCII texts only; runs above 30000 VM instructions are discarded and counted"],
+    },
+    "C04": {
+        "parts": [
+            {"test": "TestC04", "quick": 2500, "thorough": 30000, "shards": 16, "quick_shards": 2},
+        ],
+        "assumptions": ["`find all` itself is decided by C01; runs above 60000 VM instructions are discarded and counted"],
+    },
+    "C10": {
+        "hang_is_violation": True,
+        "parts": [
+            {"test": "TestC10Enum", "rapid": False, "quick": 0, "thorough": 0, "shards": 16, "quick_shards": 8},
+            {"test": "TestC10Sample", "rapid": False, "quick": 0, "thorough": 0, "shards": 16, "quick_shards": 8, "only_tier": "quick"},
+            {"test": "TestC10Random", "quick": 20000, "thorough": 50000, "shards": 16, "quick_shards": 1},
+        ],
+        "assumptions": ["VM instruction budget 5e6 per Run (verif hook); in the random part a budget trip is a violation only when the reference matcher shows the search to be short"],
+    },
+    "C11": {
+        "parts": [
+            {"test": "TestC11Table", "rapid": False, "quick": 0, "thorough": 0, "shards": 1},
+            {"test": "TestC11Trees", "quick": 20000, "thorough": 200000, "shards": 16},
+        ],
+        "assumptions": ["harness evaluator written from LanguageDetails.md; zero divisors excluded by construction (finding K1); == vs < precedence and prefix-operator binding never relied on"],
+    },
+    "C12": {
+        "parts": [
+            {"test": "TestC12Table", "rapid": False, "quick": 0, "thorough": 0, "shards": 1},
+            {"test": "TestC12Lists", "quick": 20000, "thorough": 200000, "shards": 16},
+        ],
+        "assumptions": ["harness type checker written from LanguageDetails.md; the cell bool (- * / %) number is open (run-time half only)"],
+    },
 }
